@@ -469,6 +469,7 @@ impl Property for C09Log {
         let verdict = match &run.end {
             EndState::Completed => match judge(&run) { None => Verdict::Pass, Some((signature, detail)) => Verdict::Violation { signature, detail } },
             EndState::Budget => Verdict::Inconclusive("step-budget".into()),
+            EndState::Blocked { .. } => Verdict::Inconclusive("blocked-in-uninstrumented-wait".into()),
             EndState::Stall { stuck, parked } => Verdict::Violation { signature: "multi.mmap_log/stall".into(),
                 detail: format!("no thread can make progress: threads {stuck:?} spin on an operation nobody will ever let succeed (parked: {parked:?}; current operations {:?}); history: {summary}", run.cur_ops) },
             EndState::Panicked { tid, msg } => Verdict::Violation { signature: "multi.mmap_log/panic".into(), detail: format!("thread {tid} panicked: {msg} (current operations {:?}); history: {summary}", run.cur_ops) },
